@@ -1,4 +1,5 @@
 import FormulaicVerif.Proofs.C16Tree
+import FormulaicVerif.Proofs.C16Parse
 import FormulaicVerif.Gen.OperatorTable
 /-! # C16 — Linear-constraint specifications compile to the affine map they express
 
@@ -174,5 +175,51 @@ example : ¬ RowExpresses ["a"] ([2], 0) (.var "a", 0) := by
   have : colValue ["a"] (fun _ => (1 : Rat)) "a" = 1 := by decide +kernel
   rw [this] at h3
   simp [dot] at h3
+
+/-! ## The parser inside the model
+
+`Model/ConstraintParse.lean` models `LinearConstraintParser.get_ast` (tokenizer + shunting-yard with the
+BASE operator resolver over the live constraint table); the correspondence compares its tree with the
+real parser's for every string of every case. -/
+
+/-- **C16.p1**  The constraint parser is the general shunting-yard restricted to operator tokens found
+verbatim in the table: whatever it accepts, the general algorithm of C01/C14 accepts with the same
+tree (so `shunt_complete`, `disabled_never_used`, … transfer), for every token list and table. -/
+theorem parser_refines_general (tab : FormulaicVerif.Model.OpTable) (ts : List FormulaicVerif.Model.Tok)
+    (r : Option FormulaicVerif.Model.Ast)
+    (h : FormulaicVerif.Model.ConstraintParse.tokensToAstBase tab ts = .ok r) :
+    FormulaicVerif.Model.tokensToAst tab ts = .ok r :=
+  FormulaicVerif.Proofs.C16Parse.tokensToAstBase_ok tab ts r h
+
+/-- **C16.p2**  For EVERY string, `get_ast` either returns a tree (or nothing, for an empty string) or
+fails with the library's syntax error — never with an internal exception. -/
+theorem parser_fails_only_with_syntax_error (cs : List FormulaicVerif.Model.CharInfo)
+    (e : FormulaicVerif.Model.ParseErr)
+    (h : FormulaicVerif.Model.ConstraintParse.getAst cs = .error e) : ∃ w, e = .syntax w :=
+  FormulaicVerif.Proofs.C16Parse.getAst_err cs e h
+
+/-- the model of `from_spec` as a function of the specification's CHARACTERS: `chars` attaches the
+two regex classes of the tokenizer to every character of a string -/
+def parseString (chars : String → List FormulaicVerif.Model.CharInfo) (s : String) : Parsed :=
+  (FormulaicVerif.Model.ConstraintParse.parse (chars s)).getD (.error "unmodelled-shape")
+
+/-- **C16.p3**  `compile_sound` with the modelled parser plugged in: the statement of the property
+for the model that starts at the string. -/
+theorem compile_sound_from_string (sh : Shuffle) (hsh : IsShuffle sh) (names : List String)
+    (chars : String → List FormulaicVerif.Model.CharInfo)
+    (spec : Spec) (A : List (List Rat)) (b : List Rat)
+    (h : fromSpec sh names (parseString chars) spec = .ok (A, b)) :
+    ∃ cs, written (parseString chars) spec = some cs ∧ A.length = cs.length ∧ b.length = cs.length ∧
+      ∀ (i : Nat) (hA : i < A.length) (hb : i < b.length) (hc : i < cs.length),
+        RowExpresses names (A[i], b[i]) cs[i] :=
+  compile_sound sh hsh names (parseString chars) spec A b h
+
+/-- non-vacuity: the modelled parser on the characters of `a + 2*b = 3` -/
+def asciiChars (s : String) : List FormulaicVerif.Model.CharInfo :=
+  s.toList.map (fun c => { c := c, word := c.isAlphanum || c == '_' || c == '.', space := c == ' ' })
+example : fromSpec id ["a", "b"] (parseString asciiChars) (.str "a + 2*b = 3, a/2") = .ok ([[1, 2], [1/2, 0]], [3, 0]) := by
+  decide +kernel
+example : fromSpec id ["a", "b"] (parseString asciiChars) (.str "-a + b = 3") = .ok ([[-1, 1]], [3]) := by
+  decide +kernel
 
 end FormulaicVerif.Props.C16
